@@ -8,7 +8,7 @@
 //     range over a map in pkg/headers (sortedKeys or a parser loop) under the control of headers.VerifOrder; every parser input
 //     made of <= 4 key fragments (valid, invalid, conflicting, duplicated, unknown) is parsed under all k!
 //     visiting orders of its keys, 3 times per order; all results (value or error text) must be identical;
-//  3. totality: all truncations and all <= 2 substitutions (quick: 1) from a hostile byte menu of a
+//  3. totality: all truncations and all <= 2 substitutions (quick: 1) from a hostile byte menu (binary MIKEY sources also: every byte value at every position) of a
 //     moderate sub-menu of marshalled values; value or error, never a panic, same result under the
 //     sorted and the reversed key order.
 package main
